@@ -1,111 +1,31 @@
 ------------------------------- MODULE Stats -------------------------------
-(* X09 (extension): the statistics surface of one connection endpoint -      *)
-(* ConnectionStats and the latency estimate of mpgameserver/connection.py,   *)
-(* which the GUI server plots and applications read through stats().         *)
-(*                                                                           *)
-(* The state of one endpoint is a record; every statement of the code that   *)
-(* touches a counter, a rolling list or pending_acks is one operator on that *)
-(* record (Queue, Build, Encode, Accept, Drop, Ack, TimeoutOne, Disconnect). *)
-(* The design specification below takes them as separately enabled actions   *)
-(* (the peer and the network are the environment: which datagram is acked,   *)
-(* which times out, which is dropped is not decided here - Conn.tla does     *)
-(* that); Trace_Stats.tla composes the same operators along the calls of a   *)
-(* recorded execution.  Time is in integer units (Units per second).         *)
-(*                                                                           *)
-(* As the code does it, and worth knowing:                                   *)
-(*  - `stats.sent` counts MESSAGES queued (every fragment, every automatic   *)
-(*    re-queue of a RETRY_ON_TIMEOUT message, the handshake messages and the *)
-(*    DISCONNECT), not datagrams; `assembled` counts datagrams.              *)
-(*  - disconnect() forgets the datagrams still awaiting an ack without       *)
-(*    counting them as acked or timed out (ghost `abandoned`).               *)
-(*  - a new bin is opened when the second of this send differs from the      *)
-(*    second of the previous send, so a second without traffic has NO bin:   *)
-(*    the rolling lists are not a time line (expected statement              *)
-(*    BinsAreSeconds fails; finding stats-bins-skip-idle-seconds).           *)
-EXTENDS Integers, Sequences, FiniteSets, TLC
-CONSTANTS Cap,        \* bins kept per rolling list (code: 5*60)
-          Units,      \* time units per second
-          Interval,   \* least time between two datagrams of one endpoint
-          Timeout,    \* ack time-out
-          M,          \* sequence numbers live on the ring 1..M
-          MaxT, Sizes \* bounds of the design model only
-
-Sec(t) == IF t >= 0 THEN t \div Units ELSE -((-t) \div Units)      \* Python int(): truncation towards zero
-Inc(s) == IF s = 0 THEN 1 ELSE (s % M) + 1
-RECURSIVE SumSeq(_)
-SumSeq(q) == IF q = <<>> THEN 0 ELSE Head(q) + SumSeq(Tail(q))
-Roll(q) == IF Len(q) > Cap THEN Tail(q) ELSE q
-Bump(q, n) == [q EXCEPT ![Len(q)] = @ + n]
-Without(f, x) == [y \in DOMAIN f \ {x} |-> f[y]]
-Zeros == [i \in 1..Cap |-> 0]
-
-S0(start) == [assembled |-> 0, queued |-> 0, acked |-> 0, timeouts |-> 0, received |-> 0, dropped |-> 0,
-              abandoned |-> 0, encoded |-> 0, accepted |-> 0, rolledS |-> 0, rolledR |-> 0,
-              pend |-> [x \in {} |-> 0], nseq |-> start, lastSend |-> -Units, lastRecv |-> -Units,
-              ps |-> Zeros, bs |-> Zeros, pr |-> Zeros, br |-> Zeros,
-              psSec |-> [i \in 1..Cap |-> i - Cap - 1], born |-> -1,
-              lat |-> 0, maxSample |-> 0]
-
-Queue(S, k) == [S EXCEPT !.queued = @ + k]
-
-(* _build_packet: called only when a datagram is really assembled *)
-Build(S, t) ==
-  LET open == Sec(t) # Sec(S.lastSend)
-      ps1 == IF open THEN Append(S.ps, 0) ELSE S.ps
-      bs1 == IF open THEN Append(S.bs, 0) ELSE S.bs
-      sc1 == IF open THEN Append(S.psSec, Sec(t)) ELSE S.psSec
-      n == Inc(S.nseq)
-  IN [S EXCEPT !.assembled = @ + 1, !.nseq = n, !.pend = (n :> t) @@ Without(S.pend, n),
-               !.rolledS = @ + (IF Len(ps1) > Cap THEN Head(ps1) ELSE 0),
-               !.ps = Roll(ps1), !.bs = Roll(bs1), !.psSec = Roll(sc1), !.lastSend = t,
-               !.born = IF S.born < 0 THEN Sec(t) ELSE @]
-
-(* _encode_packet / the tail of ServerClientConnection.update *)
-Encode(S, size) == [S EXCEPT !.ps = Bump(@, 1), !.bs = Bump(@, size), !.encoded = @ + 1]
-
-(* _recv_datagram up to `last_recv_time = t0` for a datagram that is accepted *)
-Accept(S, t, size) ==
-  LET open == Sec(t) # Sec(S.lastRecv)
-      pr1 == Bump(IF open THEN Append(S.pr, 0) ELSE S.pr, 1)
-      br1 == Bump(IF open THEN Append(S.br, 0) ELSE S.br, size)
-  IN [S EXCEPT !.received = @ + 1, !.accepted = @ + 1, !.pr = Roll(pr1), !.br = Roll(br1),
-               !.rolledR = @ + (IF Len(pr1) > Cap THEN Head(pr1) ELSE 0), !.lastRecv = t]
-
-Drop(S) == [S EXCEPT !.dropped = @ + 1]
-
-Sample(S, seq, t) == (t - S.pend[seq]) \div 2
-(* _handle_ack: latency += 0.1 * (rtt / 2 - latency) *)
-Ack(S, seq, t) == [S EXCEPT !.acked = @ + 1, !.pend = Without(@, seq),
-                            !.lat = @ + (Sample(S, seq, t) - @) \div 10,
-                            !.maxSample = IF Sample(S, seq, t) > @ THEN Sample(S, seq, t) ELSE @]
-TimeoutOne(S, seq) == [S EXCEPT !.timeouts = @ + 1, !.pend = Without(@, seq)]
-Due(S, seq, t) == t - S.pend[seq] >= Timeout
-(* ConnectionBase.disconnect on a live connection *)
-Disconnect(S) == [S EXCEPT !.abandoned = @ + Cardinality(DOMAIN S.pend), !.pend = [x \in {} |-> 0], !.queued = @ + 1]
-
----------------------------------------------------------------------------
+(* X09 design model: one endpoint's statistics (operators of StatsOps.tla)   *)
+(* against an arbitrary environment; see StatsOps.tla for what is modelled.  *)
+EXTENDS StatsOps
 (* design model: one endpoint against an arbitrary environment.  A sequence number is not used again while its datagram is still awaiting   *)
 (* an ack (the real ring has 65535 numbers, a datagram waits at most the ack time-out and at most 60 leave per second).                      *)
 VARIABLES st, now, toEncode
 vars == <<st, now, toEncode>>
 Init == st = S0(0) /\ now = Units /\ toEncode = FALSE
 Tick == now < MaxT /\ now' = now + 1 /\ UNCHANGED <<st, toEncode>>
-DoQueue == st' = Queue(st, 1) /\ st.queued < 3 /\ UNCHANGED <<now, toEncode>>
+DoQueue == st' = Queue(st, 1) /\ UNCHANGED <<now, toEncode>>
 DoBuild == now - st.lastSend >= Interval /\ Inc(st.nseq) \notin DOMAIN st.pend /\ st' = Build(st, now) /\ toEncode' = TRUE /\ UNCHANGED now
 DoEncode == toEncode /\ \E z \in Sizes : st' = Encode(st, z) /\ toEncode' = FALSE /\ UNCHANGED now
-DoAccept == \E z \in Sizes : st' = Accept(st, now, z) /\ st.accepted < 4 /\ UNCHANGED <<now, toEncode>>
-DoDrop == st' = Drop(st) /\ st.dropped < 2 /\ UNCHANGED <<now, toEncode>>
+DoAccept == now >= 0 /\ \E z \in Sizes : st' = Accept(st, now, z) /\ UNCHANGED <<now, toEncode>>
+DoDrop == st' = Drop(st) /\ UNCHANGED <<now, toEncode>>
 DoAck == \E s \in DOMAIN st.pend : st' = Ack(st, s, now) /\ UNCHANGED <<now, toEncode>>
 DoTimeout == \E s \in DOMAIN st.pend : Due(st, s, now) /\ st' = TimeoutOne(st, s) /\ UNCHANGED <<now, toEncode>>
 DoDisconnect == st.abandoned = 0 /\ st' = Disconnect(st) /\ UNCHANGED <<now, toEncode>>
 Next == Tick \/ DoQueue \/ DoBuild \/ DoEncode \/ DoAccept \/ DoDrop \/ DoAck \/ DoTimeout \/ DoDisconnect
 Spec == Init /\ [][Next]_vars
+Bounded == st.assembled <= 3 /\ st.queued <= 1 /\ st.accepted <= 2 /\ st.dropped <= 1     \* state constraint of the design model
 
 (* every datagram assembled is acked, timed out, still pending, or was abandoned by disconnect(): none is counted twice, none vanishes *)
 Conservation(S) == S.assembled = S.acked + S.timeouts + S.abandoned + Cardinality(DOMAIN S.pend)
 BinsBounded(S) == Len(S.ps) = Cap /\ Len(S.bs) = Cap /\ Len(S.pr) = Cap /\ Len(S.br) = Cap
 (* the bins hold exactly the datagrams sent / accepted, minus what has rolled off the old end *)
-BinsCount(S) == SumSeq(S.ps) + S.rolledS = S.encoded /\ SumSeq(S.pr) + S.rolledR = S.accepted
+BinsCount(S) == /\ SumSeq(S.ps) + S.rolledS = S.encoded /\ SumSeq(S.pr) + S.rolledR = S.accepted
+                /\ SumSeq(S.bs) + S.rolledBS = S.bytesS /\ SumSeq(S.br) + S.rolledBR = S.bytesR
 LatBounded(S) == 0 <= S.lat /\ S.lat <= S.maxSample
 RecvSplit(S) == S.received = S.accepted
 InvConservation == Conservation(st)
